@@ -10,7 +10,7 @@ import z3
 
 from pyvc import sym, concretise
 from pyvc.sym import And, Or, Not, Implies, If, eq, SV, is_none, is_str, truthy
-from pyvc.engine import SymDict, ExcVal, Obj
+from pyvc.engine import SymDict, ExcVal, Obj, Entry
 from pyvc.verify import Contract, Outcome, native_call
 from .sections import _veq
 
@@ -652,6 +652,151 @@ def summaries(src, T):
     return {(("modules", "Modules"), "_check_uid"): summary_check_uid(src, T)}
 
 
+def deep_veq(a, b):
+    """structural equality of two document values (closed SymDicts with pairwise distinct keys, lists, scalars) as a formula"""
+    from .sections import _veq
+    if a is b:
+        return True
+    if isinstance(a, SymDict) and isinstance(b, SymDict):
+        ea = [e for e in a.entries if e.present is not False]
+        eb = [e for e in b.entries if e.present is not False]
+        if any(e.present is not True for e in ea + eb) or len(ea) != len(eb):
+            return False
+        return And(*[Or(*[And(_veq(x.key, y.key), deep_veq(x.value, y.value)) for x in ea]) for y in eb])
+    if isinstance(a, list) and isinstance(b, list):
+        return len(a) == len(b) and And(*[deep_veq(x, y) for x, y in zip(a, b)])
+    if isinstance(a, (SymDict, list)) or isinstance(b, (SymDict, list)):
+        return False
+    return _veq(a, b)
+
+
+class ManifestShape(Contract):
+    """Rpms/Modules/ExtraFiles serialize + deserialize on a payload of fixed SHAPE with symbolic keys and leaves (two variants; two
+    arches under the first; two records under the first arch, one with a null field): what is read back is structurally equal to what was
+    written -- no variant, arch or record gained or lost, every leaf (null included) unchanged."""
+
+    def __init__(self, src, T, module, cls, attr):
+        self.src, self.T, self.module, self.cls, self.attr = src, T, module, cls, attr
+        self.name = "productmd.%s.%s.deserialize(serialize(m))[shape]" % (module, cls)
+        self.key = "rt:%s.%s:shape" % (module, cls)
+
+    # the symbolic atoms of the payload, by name; `build` makes the same payload from symbolic or concrete atoms
+    def atoms(self, E):
+        def s(n):
+            return SV(sym.Val.VStr(z3.Const("p.%s" % n, sym.S)))
+
+        def v(n):
+            x = SV(z3.Const("p.%s" % n, sym.Val))
+            E.assume(concretise.json_value(x))
+            E.assume(Not(sym.is_ref(x)))
+            return x
+        a = dict((n, s(n)) for n in ("V1", "V2", "A1", "A2", "k1", "k2", "k3", "path1", "path2", "path3", "cat", "name", "rpm1", "rpm2"))
+        a.update(dict((n, v(n)) for n in ("sigkey1", "size1", "size2")))
+        E.assume(And(Not(eq(a["V1"], a["V2"])), Not(eq(a["A1"], a["A2"])), Not(eq(a["k1"], a["k2"]))))
+        return a
+
+    def build(self, a, D, L):
+        """D(list of (key, value)) makes a dict, L(list) a list"""
+        if self.module == "rpms":
+            def rec(sig, path):
+                return D([("sigkey", sig), ("path", path), ("category", a["cat"])])
+            return D([(a["V1"], D([(a["A1"], D([(a["k3"], D([(a["k1"], rec(a["sigkey1"], a["path1"])), (a["k2"], rec(None, a["path2"]))]))])),
+                                   (a["A2"], D([(a["k3"], D([(a["k1"], rec("ABCDEF01", a["path3"]))]))]))])),
+                      (a["V2"], D([(a["A1"], D([]))]))])
+        if self.module == "extra_files":
+            def rec(path, size):
+                return D([("file", path), ("size", size), ("checksums", D([("sha256", a["cat"])]))])
+            return D([(a["V1"], D([(a["A1"], L([rec(a["path1"], a["size1"]), rec(a["path2"], a["size2"])])), (a["A2"], L([rec(a["path3"], 0)]))])),
+                      (a["V2"], D([(a["A1"], L([]))]))])
+        def rec(name, rpms):
+            return D([("metadata", D([("name", name), ("stream", a["cat"]), ("version", a["path3"]), ("context", a["path2"]), ("uid", a["k1"]),
+                                      ("koji_tag", a["sigkey1"])])), ("modulemd_path", D([("binary", a["path1"])])), ("rpms", L(rpms))])
+        return D([(a["V1"], D([(a["A1"], D([(a["k1"], rec(a["name"], [a["rpm1"], a["rpm2"]])), (a["k2"], rec(a["name"], []))])),
+                               (a["A2"], D([(a["k1"], rec(a["name"], [a["rpm1"]]))]))])),
+                  (a["V2"], D([(a["A1"], D([]))]))])
+
+    def setup(self, E):
+        from spec import fields as F
+        from .sections import _sv_fields, SECTIONS
+        ver = "%d.%d" % tuple(E.mods["common"].VERSION)
+        m = E.instantiate((self.module, self.cls))
+        m.fields["header"].fields["version"] = ver
+        _sv_fields(E, m.fields["compose"], SECTIONS["composeinfo.Compose"].fields, "c")
+        E.assume(F.valid_compose(self.T, m.fields["compose"]))
+        a = self.atoms(E)
+
+        def D(items):
+            d = E.models.new_dict("payload")
+            for k, v in items:
+                d.entries.append(Entry(k, True, v))
+            return d
+        P = self.build(a, D, list)
+        W = self.build(a, D, list)          # an equal, separately built copy: the expected value
+        m.fields[self.attr] = P
+        m2 = E.instantiate((self.module, self.cls))
+        return {"m": m, "m2": m2, "P": P, "W": W, "a": a, "data": E.models.new_dict("data")}
+
+    def call(self, E, st):
+        E.call(E.getattr_(st["m"], "serialize"), [st["data"]])
+        return E.call(E.getattr_(st["m2"], "deserialize"), [st["data"]])
+
+    def post(self, E, st, out):
+        if out.kind == "raise":
+            return {"write_read_cycle_succeeds": False}
+        pay = E.models.sd_lookup(st["data"], "payload", create=False)
+        wr = E.models.sd_lookup(pay.value, self.attr, create=False) if pay is not None and isinstance(pay.value, SymDict) else None
+        return {"write_read_cycle_succeeds": True,
+                "payload_written_unchanged": wr is not None and deep_veq(wr.value, st["W"]),
+                "payload_read_back_equal": deep_veq(st["m2"].fields[self.attr], st["W"]),
+                "writer_leaves_its_payload_unchanged": deep_veq(st["m"].fields[self.attr], st["W"])}
+
+    def concretise(self, model, st):
+        return dict((k, concretise.value_of(model, v)) for k, v in st["a"].items())
+
+    def sample_inputs(self, rng):
+        base = {"V1": "Server", "V2": "Client", "A1": "x86_64", "A2": "s390x", "k1": "a-0:1-1.src", "k2": "b-0:1-1.src", "k3": "s-0:1-1.src",
+                "path1": "p/1", "path2": "p/2", "path3": "p/3", "cat": "binary", "name": "n", "rpm1": "r1", "rpm2": "r2",
+                "sigkey1": "ABCDEF01", "size1": 1, "size2": 2 ** 40}
+        yield dict(base)
+        yield dict(base, sigkey1=None, size1=0)
+        yield dict(base, sigkey1="abcDEF01", cat="Source", V1="b", V2="a", A1="ppc64le", A2="aarch64")
+
+    def native_eval(self, a):
+        mod = self.src.mods[self.module]
+        m, m2 = getattr(mod, self.cls)(), getattr(mod, self.cls)()
+        m.compose.id, m.compose.type, m.compose.date, m.compose.respin = "F-21-20141201.0", "production", "20141201", 0
+        for k in ("V1", "V2", "A1", "A2", "k1", "k2"):
+            if not isinstance(a[k], str):
+                return ("skip", None), None
+        if a["V1"] == a["V2"] or a["A1"] == a["A2"] or a["k1"] == a["k2"]:
+            return ("skip", None), None
+        P = self.build(a, dict, list)
+        W = copy.deepcopy(P)
+        setattr(m, self.attr, P)
+        data = {}
+
+        def cyc():
+            m.serialize(data)
+            m2.deserialize(data)
+        nat = native_call(cyc)
+        if nat[0] == "raise":
+            return nat, {"write_read_cycle_succeeds": False}
+
+        def same(x, y):
+            if isinstance(x, dict) and isinstance(y, dict):
+                return set(x) == set(y) and all(same(x[k], y[k]) for k in x)
+            if isinstance(x, list) and isinstance(y, list):
+                return len(x) == len(y) and all(same(p, q) for p, q in zip(x, y))
+            return type(x) is type(y) and x == y
+        return nat, {"write_read_cycle_succeeds": True,
+                     "payload_written_unchanged": same(data.get("payload", {}).get(self.attr), W),
+                     "payload_read_back_equal": same(getattr(m2, self.attr), W),
+                     "writer_leaves_its_payload_unchanged": same(getattr(m, self.attr), W)}
+
+    def describe(self, a):
+        return "%s manifest with payload %s written and re-read" % (self.cls, concretise.py_repr(self.build(a, dict, list)))
+
+
 def contracts(src, T):          # noqa: F811
     return [RpmsAdd(src, T), ModulesAdd(src, T), ExtraFilesAdd(src, T), CheckUid(src, T)]
 
@@ -714,4 +859,6 @@ class ManifestVerbatim(Contract):
 def contracts(src, T):          # noqa: F811
     return [RpmsAdd(src, T), ModulesAdd(src, T), ExtraFilesAdd(src, T), CheckUid(src, T),
             ManifestVerbatim(src, T, "rpms", "Rpms", "rpms"), ManifestVerbatim(src, T, "modules", "Modules", "modules"),
-            ManifestVerbatim(src, T, "extra_files", "ExtraFiles", "extra_files")]
+            ManifestVerbatim(src, T, "extra_files", "ExtraFiles", "extra_files"),
+            ManifestShape(src, T, "rpms", "Rpms", "rpms"), ManifestShape(src, T, "modules", "Modules", "modules"),
+            ManifestShape(src, T, "extra_files", "ExtraFiles", "extra_files")]
